@@ -33,6 +33,14 @@ void vp_c02_value(char *out, char *tab, uint32_t stride, uint32_t n) {
   if (kind == 2) { ASSUME(idx < n);
     for (uint32_t k = 0; k < n; k++) { if (k == idx) { uint32_t l = 0; for (; l < stride; l++) { uint8_t c = ((uint8_t*)tab)[k * stride + l]; if (!c) break; q->data[l] = c; }
         d->f1 = l; q->lit = 1; q->sid = l <= 3 ? SID_PACK(q->data, l) : vpl_hash16(q->data, l); } } }
+#ifdef C02_DET
+  /* determinism twin (det_*): what Qt's number / date-time grammar makes of a FREE text is drawn ONCE, here, and kept in the block (ghost fields of a
+     non-number block: neg = 0x80 memo present | 0x40 "is a number" | 1 negative, mag = magnitude / instant), so that every later toInt()/toLongLong()/
+     QDateTime::fromString() of this text - by either twin - gets the same answer (det_post.c). Rows of the value table are words: not numbers. */
+  { uint8_t dk = vp_bool(), dn = vp_bool(); uint64_t dm = vp_u64();
+    if (kind == 0) { q->neg = (uint8_t)(0x80 | (dk ? 0x40 : 0) | ((dn && dm != 0) ? 1 : 0)); q->mag = dm; }
+    if (kind == 2) { q->neg = 0x80; } }
+#endif
   *(QAD**)out = d; }
 /* fresh element; `ns` is the namespace IN EFFECT (the harness resolves inheritance, so the pointer never becomes a choice) */
 void vp_c02_init(void) { c02_nonode_init(); }
@@ -227,7 +235,10 @@ char* _ZN9QDateTimeaSEOS_(char *self, char *o) { DTW(self) = DTW(o); return self
 uint8_t _ZNK9QDateTime6isNullEv(char *self) { return DTW(self) == 0; }
 uint8_t _ZNK9QDateTime7isValidEv(char *self) { return DTW(self) != 0; }
 void _ZN9QDateTime10fromStringERK7QStringN2Qt10DateFormatE(char *ret, char *str, uint32_t fmt) { QAD *d = *(QAD**)str; uint64_t any = vp_u64();
-  if (d->f1 == 0) { DTW(ret) = 0; return; } if (d->f3 == QS_OFF && ((struct qs*)d)->isnum) { DTW(ret) = ((struct qs*)d)->mag; return; } DTW(ret) = any; }
+  if (d->f1 == 0) { DTW(ret) = 0; return; } if (d->f3 == QS_OFF && ((struct qs*)d)->isnum) { DTW(ret) = ((struct qs*)d)->mag; return; }
+  /* C02_DET: the interpretation of a free text was drawn when the text was made (see vp_c02_value) */
+  if (d->f3 == QS_OFF && (((struct qs*)d)->neg & 0x80)) { DTW(ret) = (((struct qs*)d)->neg & 0x40) ? ((struct qs*)d)->mag : 0; return; }
+  DTW(ret) = any; }
 void _ZNK9QDateTime10toTimeSpecEN2Qt8TimeSpecE(char *ret, char *self, uint32_t spec) { DTW(ret) = DTW(self); }
 void _ZNK9QDateTime5toUTCEv(char *ret, char *self) { DTW(ret) = DTW(self); }
 uint32_t _ZNK9QDateTime4timeEv(char *self) { return (uint32_t)(DTW(self) & 0x3ffffff); }   /* QTime is one int (ms since midnight), returned in a register */
@@ -261,12 +272,20 @@ void _ZNK12QXmppElement5toXmlEP16QXmlStreamWriter(char *self, char *w) { struct 
   x->depth--; }
 /* QXmpp::Private::parseHostAddress (QXmppUtils.cpp; wraps QUrl, Qt): cut - arbitrary host (0..3 units) and port */
 void _ZN5QXmpp7Private16parseHostAddressERK7QString(char *ret, char *addr) { uint32_t port = vp_u32(); uint32_t len = vp_u32(); uint16_t c0 = vp_u16(), c1 = vp_u16(), c2 = vp_u16(); ASSUME(len <= 3);
+#ifdef C02_DET   /* determinism twin: host and port are a function of the text's pre-drawn interpretation (see vp_c02_value): arbitrary, but the same for every call on this text */
+  { QAD *a = *(QAD**)addr; if (a->f3 == QS_OFF && (((struct qs*)a)->isnum || (((struct qs*)a)->neg & 0x80))) { uint64_t m = ((struct qs*)a)->mag;   /* abstract number text: its value plays the same role */
+      len = (uint32_t)(m & 3); port = (uint32_t)(m >> 2); c0 = (uint16_t)(m >> 34); c1 = (uint16_t)(m >> 48); c2 = (uint16_t)(c0 ^ (m >> 20)); } }
+#endif
   QAD *d = qs_new(len, 3); struct qs *q = (struct qs*)d; REF(d) = (uint32_t)-1; q->data[0] = c0; q->data[1] = c1; q->data[2] = c2; q->exact = 1; q->sid = SID_PACK(q->data, len);
   *(QAD**)ret = d; *(uint32_t*)(ret + 8) = len == 0 ? (uint32_t)-1 : port; }
 /* text of CONCRETE length (1..3) with arbitrary units, and an attribute that is present on every path: used where the emptiness of a value decides the
    length of a list in the parsed object (QXmppExtendedAddress::isValid), so that one instance has a concretely valid entry */
 void vp_c02_fixed_text(char *out, uint32_t len) { uint16_t c0 = vp_u16(), c1 = vp_u16(), c2 = vp_u16(); ASSERT(len >= 1 && len <= 3, "C02 env: fixed text length"); QAD *d = qs_new(len, 3); struct qs *q = (struct qs*)d; REF(d) = (uint32_t)-1;
-  q->data[0] = c0; q->data[1] = c1; q->data[2] = c2; q->exact = 1; q->sid = SID_PACK(q->data, len); *(QAD**)out = d; }
+  q->data[0] = c0; q->data[1] = c1; q->data[2] = c2; q->exact = 1; q->sid = SID_PACK(q->data, len);
+#ifdef C02_DET
+  { uint8_t dk = vp_bool(), dn = vp_bool(); uint64_t dm = vp_u64(); q->neg = (uint8_t)(0x80 | (dk ? 0x40 : 0) | ((dn && dm != 0) ? 1 : 0)); q->mag = dm; }
+#endif
+  *(QAD**)out = d; }
 void vp_c02_force_attr(char *el, char *name, char *val) { struct dnode *n = DN(el); int s = vpl_attr_slot(*(QAD**)name, 1); if (!n->has[s]) n->nattr++; n->has[s] = 1; n->av[s] = *(QAD**)val; }
 void vp_c02_force_text(char *el, char *text) { DN(el)->text = *(QAD**)text; }
 /* ---- more Qt string/byte helpers (contract models) ---- */
